@@ -94,6 +94,10 @@ func I16(name string) int16  { return int16(lookup(fresh(name))) }
 func I32(name string) int32  { return int32(lookup(fresh(name))) }
 func I64(name string) int64  { return int64(lookup(fresh(name))) }
 func Int(name string) int    { return int(lookup(fresh(name))) }
+
+// I64Z is an arbitrary int64 that gosym represents by an SMT integer (use it
+// for values that flow into math/big arithmetic).
+func I64Z(name string) int64 { return int64(lookup(fresh(name))) }
 func Bool(name string) bool  { return lookup(fresh(name))&1 == 1 }
 
 // Bytes returns n arbitrary bytes (n concrete).
